@@ -6,6 +6,7 @@ from datetime import datetime
 from pathlib import Path
 
 from bldfm import config
+from bldfm import _verif
 
 
 def compute_wind_fields(u_rot, wind_dir):
@@ -172,6 +173,8 @@ def parallelize(func):
             _compiled[use_parallel] = numba.jit(
                 nopython=True, parallel=use_parallel, cache=True
             )(func)
+            _verif.emit("kernel_compile", parallel=use_parallel)
+        _verif.emit("kernel_call", parallel=use_parallel, have=sorted(_compiled))
         return _compiled[use_parallel](*args, **kwargs)
 
     return wrapper
